@@ -665,12 +665,7 @@ def monitor_split(tabs, meta, page_h):
 # (coverage.streams.render.open_findings, with a first witness) and described in the builder's report; once listed
 # as open known findings with these signatures they go through run.fail (and are printed as KNOWN-FINDING).
 # Every other failed clause is a VIOLATION.
-REPORTED = {'table-geom:columns-plus-spacing-equal-table-width[no-originating-cell]',
-            'grid-spec[no-originating-cell]',
-            'table-geom:column-width-non-negative[fixed-layout]',
-            'table-geom:rowspan-cell-ends-with-its-last-row[empty-last-row]',
-            'table-geom:column-widths-as-computed[rtl-mirrored-on-relayout]',
-            'table-split:cell-content-once[restart-after-empty-fragment]'}
+REPORTED = set()    # every finding of the build is now either fixed in /repo or listed in known_findings.json
 
 
 def finding(run, tally, signature, what, data):
